@@ -29,6 +29,7 @@ var Props = map[string]*PropSpec{}
 type seqEngine struct {
 	profile    Profile
 	nontrivial func(out *SeqOutcome) bool
+	saveLoad   bool
 }
 
 func (e *seqEngine) Run(a *agg, spec *PropSpec, seed uint64) {
@@ -39,6 +40,27 @@ func (e *seqEngine) Run(a *agg, spec *PropSpec, seed uint64) {
 		lo, hi = 20, 200
 	}
 	nops := lo + rng.Intn(hi-lo+1)
+	if e.saveLoad {
+		pl := &SaveLoadPlan{ChunkSeed: rng.Uint64(), MaxChunk: []int{0, 1, 3, 17, 400}[rng.Intn(5)], CleanUp: rng.Bool()}
+		switch rng.Intn(5) {
+		case 0:
+			pl.Delta = 0
+		case 1:
+			pl.Delta = 1
+		default:
+			pl.Delta = genDuration(&rng, &e.profile)
+		}
+		if sc.Cfg.withExpiry() && rng.Intn(3) == 0 {
+			pl.Delta = sc.Cfg.ExpD + int64(rng.Intn(3)) - 1 // land on a deadline
+			if pl.Delta < 0 {
+				pl.Delta = 0
+			}
+		}
+		if sc.Cfg.bounded() && rng.Intn(2) == 0 {
+			pl.TMax = uint64(1 + rng.Intn(int(sc.Cfg.Max)*2+2))
+		}
+		sc.SaveLoad = pl
+	}
 	rng2 := simrt.NewRng(seed, 11)
 	gen := NewOpGen(&rng2, &sc.Cfg, &e.profile)
 	out := RunSeq(seed, sc, gen, nops, true)
@@ -117,7 +139,7 @@ func minimizeSeq(seed uint64, sc *SeqCase, prop, rule string, budgetS float64) *
 		out := RunSeq(seed, c, nil, 0, true)
 		return hasRule(out.Viol, prop, rule)
 	}
-	cur := &SeqCase{Cfg: sc.Cfg, Ops: append([]Op(nil), sc.Ops...)}
+	cur := &SeqCase{Cfg: sc.Cfg, Ops: append([]Op(nil), sc.Ops...), SaveLoad: sc.SaveLoad}
 	if !fails(cur) {
 		return sc // not deterministic?! keep the original
 	}
@@ -131,10 +153,10 @@ func minimizeSeq(seed uint64, sc *SeqCase, prop, rule string, budgetS float64) *
 			if j > len(cur.Ops) {
 				j = len(cur.Ops)
 			}
-			cand := &SeqCase{Cfg: cur.Cfg}
+			cand := &SeqCase{Cfg: cur.Cfg, SaveLoad: cur.SaveLoad}
 			cand.Ops = append(cand.Ops, cur.Ops[:i]...)
 			cand.Ops = append(cand.Ops, cur.Ops[j:]...)
-			if len(cand.Ops) > 0 && fails(cand) {
+			if (len(cand.Ops) > 0 || cand.SaveLoad != nil) && fails(cand) {
 				cur = cand
 				if n > 2 {
 					n--
@@ -158,7 +180,7 @@ func minimizeSeq(seed uint64, sc *SeqCase, prop, rule string, budgetS float64) *
 		if !time.Now().Before(deadline) {
 			return
 		}
-		cand := &SeqCase{Cfg: cur.Cfg, Ops: cur.Ops}
+		cand := &SeqCase{Cfg: cur.Cfg, Ops: cur.Ops, SaveLoad: cur.SaveLoad}
 		mut(&cand.Cfg)
 		if fails(cand) {
 			cur = cand
